@@ -253,7 +253,7 @@ impl<'tcx> JSFormatter<'tcx> {
     pub fn fmt_primitive_list_view(&self, primitive: hir::PrimitiveType) -> &'static str {
         match primitive {
             hir::PrimitiveType::Bool => "boolean",
-            hir::PrimitiveType::Char => "u16",
+            hir::PrimitiveType::Char => "u32",
             hir::PrimitiveType::Byte => "u8",
             hir::PrimitiveType::Int(hir::IntType::I8) => "i8",
             hir::PrimitiveType::Int(hir::IntType::U8) => "u8",
